@@ -16,7 +16,7 @@ bct = env.bct
 
 EXCLUDED = {
     'adjacency_plot_und': 'plotting (needs mayavi)', 'writetoPAJ': 'writes a file', 'make_motif34lib': 'writes a file',
-    'link_communities': 'minutes per call', 'get_rng': 'takes no array', 'teachers_round': 'scalar only', 'cuberoot': 'pure ufunc on a copy',
+    'get_rng': 'takes no array', 'teachers_round': 'scalar only', 'cuberoot': 'pure ufunc on a copy',
     'generate_fc': 'raises NotImplementedError before touching anything',
 }
 # the only legal writes: first argument of these when copy=False is requested
@@ -75,6 +75,13 @@ def matrix(rnd, n, signed, directed, binary, diag, dens=None):
         for a in range(n):
             if rnd.random() < 0.7:
                 W[a, a] = 1.0 if binary else float(rnd.randint(1, 4))
+                if signed and rnd.random() < 0.5:
+                    W[a, a] = -float(rnd.randint(1, 2))  # signed self-weights (they may cancel: trace 0 with a non-empty diagonal)
+        if signed and not binary and rnd.random() < 0.15:
+            for a in range(n):
+                W[a, a] = 0.0
+            a, b = rnd.sample(range(n), 2)
+            W[a, a], W[b, b] = 1.0, -1.0
     return W
 
 
@@ -85,7 +92,7 @@ def retype(rnd, W):
     if r < 0.12 and set(vals.tolist()) <= {0.0, 1.0}:
         return W.astype(bool)
     if r < 0.24 and np.all(W == np.round(W)):
-        return W.astype(rnd.choice((np.int64, np.int32, np.int8)))
+        return W.astype(rnd.choice((np.int64, np.int32, np.int8, np.int16)))  # every integer type the library itself casts to, and narrower
     if r < 0.30:
         return W.astype(np.float32)
     if r < 0.42:
@@ -155,6 +162,11 @@ def synth(fname, rnd):
             val = retype(rnd, matrix(rnd, n, signed, directed, binary and rnd.random() > 0.125, diag))
             if val.dtype == np.float64 and rnd.random() < DUST:
                 val = _dust(rnd, val, directed)
+            x = rnd.random()
+            if x < 0.08:
+                val = (val != 0)  # a boolean mask handed to a routine whatever its name says (retype() makes bool only from 0/1 matrices)
+            elif x < 0.13 and val.dtype == np.float64 and np.abs(val).max() > 0:
+                val = val / np.abs(val).max()  # pre-normalised weights: the largest magnitude is exactly 1
         elif pname in VECTOR_LABEL_NAMES:
             if has_default and rnd.random() < 0.3:
                 continue
